@@ -10,7 +10,7 @@ import z3
 from .core import (Ctx, Obligation, Unsupported, Infeasible, PathEnd, PyRaise, Val, Num, Bool, Vec, NONE, zint)
 from .extract import Loader, RepoFunc
 from .interp import Interp, LoopSpec, ReturnEx
-from . import lib_py, lib_np, lib_sp, lib_sets, lib_io, lib_sp_blocks, lib_mda  # noqa: F401  (register library contracts)
+from . import lib_py, lib_np, lib_sp, lib_sets, lib_io, lib_sp_blocks, lib_mda, lib_nx  # noqa: F401  (register library contracts)
 
 Z3_TIMEOUT_MS = int(os.environ.get("PYVC_Z3_TIMEOUT_MS", "20000"))
 
@@ -239,6 +239,38 @@ def _string_axioms_if_needed(fs):
     return lib_py.string_axioms(fs) if _uses_strings(fs) else []
 
 
+def _small_scope(ob, fs, timeout_ms):
+    """small-scope model search: the same query with every declared integer input / length additionally bounded by a small
+    constant.  A model of the strengthened query is a model of the original one (all hypotheses are kept), so "sat" is a
+    genuine refutation; with small sizes the quantified range hypotheses have few relevant instances and the model finder
+    succeeds where the unbounded query times out.  "unsat"/"unknown" here mean nothing (returns False)."""
+    scope = []
+    for ent in (ob.meta.get("inputs") or {}).values():
+        t = ent[1] if ent[0] in ("int", "vec") else None
+        if t is not None and ent[0] == "vec":
+            t = zint(t)
+        if t is not None and z3.is_expr(t) and t.sort() == z3.IntSort() and not z3.is_int_value(t):
+            scope.append(t)
+    if not scope:
+        return False
+    for bound in (2, 4):
+        s5 = z3.Solver()
+        s5.set("timeout", min(timeout_ms, 5000))
+        s5.add(*fs)
+        s5.add(*[x <= bound for x in scope])
+        if s5.check() == z3.sat:
+            ob.result = "refuted"
+            ob.backend += f"+small-scope({bound})"
+            try:
+                m = s5.model()
+                ob.z3model = m
+                ob.model = {str(d): str(m[d]) for d in m.decls()}
+            except Exception:
+                ob.model = {}
+            return True
+    return False
+
+
 def discharge(ob: Obligation, timeout_ms=None, try_cvc5=True):
     """prove hyps |- goal.  result in {'proved','refuted','unknown'}"""
     timeout_ms = timeout_ms or Z3_TIMEOUT_MS
@@ -249,11 +281,23 @@ def discharge(ob: Obligation, timeout_ms=None, try_cvc5=True):
     fs = list(ob.hyps) + [z3.Not(ob.goal)]
     if _uses_strings(fs):
         fs = lib_py.string_axioms(fs) + fs
+    # stage A: a short first attempt (almost every obligation of an unchanged tree is settled within it); if it is
+    # undecided the small-scope model search below runs before the full-length attempt, so that a changed tree is
+    # refuted in seconds instead of after the full timeout of every obligation
+    quick_ms = min(timeout_ms, 5000)
     s = z3.Solver()
-    s.set("timeout", timeout_ms)
+    s.set("timeout", quick_ms)
     s.add(*fs)
     r = s.check()
     ob.backend = "z3-" + z3.get_version_string()
+    if r == z3.unknown and _small_scope(ob, fs, timeout_ms):
+        ob.seconds = time.time() - t0
+        return ob.result
+    if r == z3.unknown and quick_ms < timeout_ms:
+        s = z3.Solver()
+        s.set("timeout", timeout_ms)
+        s.add(*fs)
+        r = s.check()
     if r == z3.unsat:
         ob.result = "proved"
     elif r == z3.sat:
